@@ -231,4 +231,35 @@ def readTree (env : Env) (noTime : Bool) (skip : RPath → Bool) (fs : FS) (root
     Option (Except Err (List FileRec)) :=
   (walkTree fs skip root).map (nextAll env noTime)
 
+/-! ### the source shapes this model was written from (compared with the regenerated facts, `gen_lfsread_*`) -/
+namespace ReadFacts
+
+/-- the `File` literal of `LocalFS.Next` — `readerFile` field by field -/
+def fileLiteral : List String :=
+  ["Data=r", "DevMajor=major", "DevMinor=minor", "Gid=gid", "LinkTarget=linkTarget", "ModTime=mtime",
+   "Mode=entry.info.Mode()", "Name=entry.info.Name()", "Path=path.Clean(entry.path)",
+   "Size=uint64(entry.info.Size())", "Uid=uid", "Xattrs=xa"]
+
+/-- `mtime` of `readerFile` -/
+def noTime : List String := ["mtime:=entry.info.ModTime()", "if fs.opts.NoTime mtime=time.Unix(0,0)"]
+
+/-- xattrs of every entry (no condition), the link target of symbolic links, the content of regular files; all on
+    `entry.path`, the path the walk reported -/
+def calls : List String :=
+  ["xattr.LList(entry.path) under []", "xattr.LGet(entry.path,key) under [range keys]",
+   "os.Readlink(entry.path) under [if entry.info.Mode()&os.ModeSymlink!=0]",
+   "os.Open(entry.path) under [if entry.info.Mode().IsRegular()]", "xa[key]=string(value)"]
+
+/-- `walkFrom`: `filepath.Walk` from `fs.Root`; a directory on another device is skipped before anything is sent;
+    every other entry is sent, error or not, and the walk goes on -/
+def walkCallback : List String :=
+  ["filepath.Walk(fs.Root)", "params:path,info,err", "if fs.dev!=0&&info.IsDir()",
+   "  st,ok:=info.Sys().(syscall.Stat_t)", "  if ok&&uint64(st.Dev)!=fs.dev", "    return filepath.SkipDir",
+   "send fs.entries<-walkEntry{path,info,err}", "return nil"]
+
+/-- `tar()` reads `f.Size` for regular files only (`readerFile` reports 0 for directories and device nodes) -/
+def sizeUses : List String := ["case f.IsRegular()"]
+
+end ReadFacts
+
 end Desync.LFS
